@@ -509,6 +509,14 @@ func (r *Run) writeEvidence(wall float64, violations []map[string]any, knownTota
 	for k, v := range r.extra {
 		cov[k] = v
 	}
+	if p := os.Getenv("VERIF_FUZZ_STATS"); p != "" { // written by ./run before the thorough TestCheck: native fuzz campaigns
+		if b, err := os.ReadFile(p); err == nil {
+			var st any
+			if json.Unmarshal(b, &st) == nil {
+				cov["native_fuzz_campaigns"] = st
+			}
+		}
+	}
 	if cov["samples"] == nil || len(r.samples) == 0 {
 		cov["samples"] = []any{"(no sample recorded)"}
 	}
